@@ -140,6 +140,11 @@ type Result struct {
 	Nontrivial bool
 	Labels     []string
 	Err        error // non-nil: the property is violated on this case
+	// NoShrink: the violation is final as reported (a watchdog expiry leaves a
+	// spinning goroutine behind; re-running the case to shrink it would cost
+	// the watchdog time again for every attempt). The replay file is written
+	// once and the rest of the check is skipped.
+	NoShrink bool
 }
 
 // A Check is one executable statement of (part of) a property.
@@ -595,8 +600,12 @@ func Run(t *testing.T, p Plan) {
 			cs(ck.Name).Requested += int64(n)
 			mu.Unlock()
 			start := time.Now()
+			stopped := false
 			rapid.Check(t, func(rt *rapid.T) {
 				cse := ck.Gen(rt)
+				if stopped {
+					return
+				}
 				res := safeProp(ck.Prop, cse)
 				Count(ck.Name, &cse, res.Nontrivial, res.Labels...)
 				if res.Err != nil {
@@ -608,6 +617,9 @@ func Run(t *testing.T, p Plan) {
 					}
 					path := WriteReplay(p.Prop, ck.Name, &cse, res.Err.Error())
 					AddViolation(ck.Name, path, res.Err.Error())
+					if res.NoShrink {
+						stopped = true
+					}
 					rt.Fatalf("%s/%s violated: %v\ncase: %s", p.Prop, ck.Name, res.Err, cse.Describe())
 				}
 			})
